@@ -198,6 +198,32 @@ def rule_record_coherence(eng, rep, A, rule="C03-3.record-coherence-at-stores"):
             rep.ok(rule, site, "point, residual, sample count and evaluation number all derive from the evaluation at %s" % eng.where(fi, es.call))
 
 
+def _pair_at_every_call_site(eng, fi, bufp, cntp, pos):
+    """every call of fi binds (bufp, cntp) to the residual buffer and the samples-run counter of one and the same evaluation"""
+    from ..resolve import bind_call
+    sites = eng.res.callers.get(fi.fid, [])
+    if not sites:
+        return False
+    for ci in sites:
+        caller = ci.caller
+        ccfg = eng.cfg(caller)
+        bound = any(bd for (tt, bd) in eng.res.call_targets(caller, ci.node) if tt.fid == fi.fid)
+        b = bind_call(ci.node, fi, bound and fi.is_method)
+        eb, ec = b.params.get(bufp), b.params.get(cntp)
+        if not (isinstance(eb, ast.Name) and isinstance(ec, ast.Name)):
+            return False
+        ok = False
+        for es in eval_sites(eng):
+            if es.fi.fid != caller.fid:
+                continue
+            for (un, names) in es.unpacks:
+                if len(names) == len(pos) and names[0] == eb.id and names[2] == ec.id and un in ccfg.defs_reaching(eb, eb.id) and un in ccfg.defs_reaching(ec, ec.id):
+                    ok = True
+        if not ok:
+            return False
+    return True
+
+
 def rule_extra_samples_same_slot(eng, rep, rule="C03-3c.extra-samples-go-to-the-slot-of-their-point"):
     """Sibling agreement at every re-sampling site: rows 1.. of an evaluation buffer are averaged (Model.add_new_sample) into the very slot that
     received row 0 of the same buffer (change_point(k, ..) -> the same k; add_new_point -> npt() - 1), in a loop `for i in range(1, <samples run>)`."""
@@ -247,6 +273,16 @@ def rule_extra_samples_same_slot(eng, rep, rule="C03-3c.extra-samples-go-to-the-
             for (un, names) in es.unpacks:
                 if len(names) == len(pos) and names[0] == buf and un in cfg.defs_reaching(rarg.value if sliced is None else st.iter.value, buf):
                     cnt = names[2]
+        if cnt is None and buf in fi.all_params:
+            # a helper that receives the buffer together with its counter: the pair is established at the call sites
+            it0 = st.iter
+            cand = None
+            if sliced is None and isinstance(it0, ast.Call) and len(it0.args) == 2 and isinstance(it0.args[1], ast.Name):
+                cand = it0.args[1].id
+            elif sliced is not None and isinstance(sliced[2].upper, ast.Name):
+                cand = sliced[2].upper.id
+            if cand in fi.all_params and _pair_at_every_call_site(eng, fi, buf, cand, pos):
+                cnt = cand
         it = st.iter
         bufnode = rarg.value if sliced is None else st.iter.value
         okloop = isinstance(it, ast.Call) and isinstance(it.func, ast.Name) and it.func.id == "range" and len(it.args) == 2 and const_value(it.args[0]) == 1 \
@@ -291,7 +327,7 @@ def rule_extra_samples_same_slot(eng, rep, rule="C03-3c.extra-samples-go-to-the-
         else:
             rep.bad(rule, site, "%s|extra-sample-other-slot|%s" % (fi.fid, short(karg, 25)),
                     "extra samples of this point are averaged into slot `%s` but its first sample was stored in %s: the residuals of two different points are mixed" % (short(karg, 30), want))
-    rep.require_count(rule, "re-sampling sites (add_new_sample calls)", n, 6)
+    rep.require_count(rule, "re-sampling sites (add_new_sample calls)", n, 1)      # (today 10 copies of one block; one helper is enough)
 
 
 def _non_eval_store(eng, rep, rule, c, site):
